@@ -287,6 +287,46 @@ func (fx *FnExec) ghostInitAt(st *State, ref string, et types.Type) {
 	}
 }
 
+// inheritOwnership: a pointer to a struct object (or a slice, by its backing array) that is stored into a container stays
+// private to this activation only if the container is private: once it is reachable from a shared object (or a
+// package-level variable: container ""), other goroutines can reach it, and its guarded fields need their lock from then
+// on. Not retroactive: objects stored into a container that is published later keep their status (stated limit).
+func (fx *FnExec) inheritOwnership(st *State, t types.Type, leaves []string, container string) {
+	e := fx.e
+	var ref string
+	switch u := t.Underlying().(type) {
+	case *types.Pointer:
+		n, ok := u.Elem().(*types.Named)
+		if !ok || n.Obj().Pkg() == nil || len(leaves) != 1 {
+			return
+		}
+		if _, isStruct := n.Underlying().(*types.Struct); !isStruct {
+			return
+		}
+		ref = leaves[0]
+		if b, ok := e.refBirth[container]; !(ok && b > 0) {
+			if e.escaped == nil {
+				e.escaped = map[string]bool{}
+			}
+			e.escaped["type:"+n.Obj().Pkg().Path()+"."+n.Obj().Name()] = true
+		}
+	case *types.Slice:
+		if len(leaves) != 3 {
+			return
+		}
+		ref = leaves[0]
+	default:
+		return
+	}
+	mk := e.keyMine()
+	m := e.heapGet(st, mk)
+	keep := "false"
+	if container != "" {
+		keep = sel(m, container)
+	}
+	e.heapWrite(st, mk, store(m, ref, and(sel(m, ref), keep)), ref)
+}
+
 // rangedValue returns the slice a range-over-slice loop iterates: go/ssa evaluates it once before the loop, takes its
 // length, and the loop head compares the incremented index with that length.
 func rangedValue(li *loopInfo) ssa.Value {
@@ -982,6 +1022,14 @@ func (fx *FnExec) execInstr(st *State, in ssa.Instruction) {
 			leaves = fx.asLeaves(st, vv, loc.T)
 		}
 		e.storeLoc(st, loc, leaves)
+		switch loc.Kind {
+		case LField:
+			fx.inheritOwnership(st, in.Val.Type(), leaves, loc.Ref)
+		case LElem:
+			fx.inheritOwnership(st, in.Val.Type(), leaves, loc.Arr)
+		case LGlobal:
+			fx.inheritOwnership(st, in.Val.Type(), leaves, "")
+		}
 		fx.raiseCondFlag(st, loc)
 		fx.checkOnAssign(st, in, loc)
 		if sl, isSlice := loc.T.Underlying().(*types.Slice); isSlice && loc.Kind == LField && fx.fieldClass(loc) == "immutable" && len(leaves) == 3 {
@@ -1080,6 +1128,7 @@ func (fx *FnExec) execInstr(st *State, in ssa.Instruction) {
 		}
 		fx.checkMapAccess(st, in.Map, true, in.Pos())
 		e.mapUpdate(st, m, mv.L[0], key, leaves)
+		fx.inheritOwnership(st, m.Elem(), leaves, mv.L[0])
 	case *ssa.Slice:
 		fx.execSlice(st, in)
 	case *ssa.Range:
